@@ -12,6 +12,7 @@ import GstVerif.Cow.Driver
 import GstVerif.Cov.Driver
 import GstVerif.Trans.Driver
 import GstVerif.Mesh.Driver
+import GstVerif.Simu.Driver
 /-
   gstmodel: line-protocol driver.  One request per input line:
       <model> <op> <args…> => <implementation's answer…>
@@ -29,7 +30,7 @@ implementation: never a legal answer of the numerical operations of the models b
 def nonFinite (t : String) : Bool :=
   (t.splitOn ",").any fun x => x = "nan" || x = "+inf" || x = "-inf"
 
-def numericModels : List String := ["g", "p", "m", "k", "r", "n", "v", "s", "t", "u"]
+def numericModels : List String := ["g", "p", "m", "k", "r", "n", "v", "s", "t", "u", "w"]
 
 def dispatch0 (req impl : List String) : String :=
   match req with
@@ -47,6 +48,7 @@ def dispatch0 (req impl : List String) : String :=
   | "s" :: args => Cov.handle args impl
   | "t" :: args => Trans.handle args impl
   | "u" :: args => Mesh.handle args impl
+  | "w" :: args => Simu.handle args impl
   | _ => "bad-op"
 
 /-- a request of a numerical model which its handler cannot parse because the implementation
